@@ -21,7 +21,7 @@ ENTRIES = {
         "note": "Cases with head below the highest synced height are outside the syncer's domain (try_init inserts the "
                 "network head, header-sub only raises it); there only disjointness, bound and contiguity are "
                 "demanded. The end-to-end FetchingHeadersStarted events of the real Syncer are judged with the same "
-                "relation in the C25/C38 checks.",
+                "relation (Trace_Syncer invariant FetchAllowed), in this check and in C25/C38.",
         "technique": "TLA+ relation + TLC exhaustive table replayed into Rust (spec->impl)",
     },
 }
@@ -39,6 +39,10 @@ def run(ck):
                           count_stats=False, timeout=3000)
     s = ck.harness(hb, ["replay", "syncrange", cases, "--n", n], "replay")
     ck.absorb(s, classify)
+    # end to end: the batches the real Syncer worker requests (FetchingHeadersStarted) must satisfy the same
+    # relation with respect to the store and subjective head at request time (Trace_Syncer, FetchAllowed)
+    from checks import syncer as sy
+    sy.record_validate(ck, hb, combos=sy.COMBOS_QUICK if ck.quick else sy.COMBOS_THOROUGH[:4])
     ck.cov["exhaustive"] = True
     ck.cov["rule"] = ("every (synced set, head, limit) over 1..N x 2 embeddings; non-trivial = in-domain case whose "
                       "synced set has >= 2 runs")
